@@ -6,7 +6,7 @@ from . import registry as R, leandriver, bits
 
 
 class Job:
-    __slots__ = ('e', 'regime', 'inverse', 'x', 'ctx', 'kind', 'y', 'ld', 'reqs', 'rec_inputs', 'tag', 'prec', 't', 'resp')
+    __slots__ = ('e', 'regime', 'inverse', 'x', 'ctx', 'kind', 'y', 'ld', 'reqs', 'rec_inputs', 'tag', 'prec', 't', 'resp', 'nograd')
 
     def __init__(self, **kw):
         for k in self.__slots__:
@@ -44,8 +44,12 @@ def make_job(e, t, x, ctx, inverse, regime='', tag=None):
         else:
             reqs = [R.model_request(e, t, x, ctx, inverse, rec, pass_index=0)]
             rec_inputs = [rec.calls[0][0][0]]
+    # the same call without autograd (inference): values must be bit-identical (a "fast path" taken only under no_grad is still the
+    # same function)
+    with torch.no_grad():
+        ng = R.impl_call(t, x, ctx, inverse)
     return Job(e=e, regime=regime, inverse=inverse, x=x, ctx=ctx, kind=kind, y=y, ld=ld, reqs=reqs, rec_inputs=rec_inputs,
-               tag=tag, prec=prec, t=t)
+               tag=tag, prec=prec, t=t, nograd=ng)
 
 
 def run_jobs(jobs):
@@ -96,6 +100,11 @@ def compare(ctx, j, prop, observables=('out', 'ld'), atol=1e-9, rtol=1e-9, check
             'x_bits': bits.tensor_bits(j.x)[:64], 'shape': list(j.x.shape)}
     n = j.x.numel()
     br = '%s/%s/%s%s' % (e.kind, e.name.split('/')[0], 'inv' if j.inverse else 'fwd', branch_extra)
+    if j.nograd is not None:
+        k2, y2, l2 = j.nograd
+        if k2 != j.kind or (k2 == 'ok' and not (torch.equal(torch.nan_to_num(y2, nan=1.25e300), torch.nan_to_num(j.y, nan=1.25e300))
+                                               and torch.equal(torch.nan_to_num(l2, nan=1.25e300), torch.nan_to_num(j.ld, nan=1.25e300)))):
+            ctx.disagree(prop + '/' + e.kind, case, {'no_grad': k2}, {'grad': j.kind}, 'evaluation under torch.no_grad() differs from evaluation with autograd')
     if not j.resp:
         ctx.case(n=n, branch=br + '/no-model')
         if j.kind != 'ok':
